@@ -3,6 +3,7 @@ package main
 import (
 	"fmt"
 	"go/token"
+	"go/types"
 	"sort"
 	"strings"
 
@@ -153,7 +154,13 @@ func runC13(c *Ctx) {
 			ra, pa, oka := a.FieldPath()
 			rb, pb, okb := b.FieldPath()
 			if oka && okb && ra.V == ssa.Value(recv) && rb.V == ssa.Value(recv) && pa[0] == "Interval" && pb[0] == "Quantity" {
-				return "v"
+				// the recognised definition is the *unsigned* quotient uint64(Interval)/Quantity
+				if bo, isBo := s.V.(*ssa.BinOp); isBo {
+					if bt, isBasic := bo.X.Type().Underlying().(*types.Basic); isBasic && bt.Info()&types.IsUnsigned != 0 {
+						return "v"
+					}
+				}
+				return ""
 			}
 		}
 		return ""
